@@ -67,6 +67,8 @@ int remote_dep_dequeue_send(parsec_execution_stream_t *e, int rank, parsec_remot
     return 1;
 }
 int parsec_taskpool_update_runtime_nbtask(parsec_taskpool_t *t, int32_t n) { (void)t; (void)n; return 0; }
+/* never reached (outputs carry no parsec_data_copy_t in this harness); defined for the native link */
+int parsec_data_release_self_contained_data(parsec_data_t *d) { (void)d; VASSERTM(0, "no payload copy is released by the relay"); return 0; }
 static int stub_oms(parsec_taskpool_t *t, int dst, parsec_remote_deps_t *rd) { (void)t; (void)dst; (void)rd; return 1; }
 
 /* successor iterator of the producer task class (what ptgpp generates from the JDF): output k
@@ -183,7 +185,10 @@ int main(void)
     VASSERTM(tx_cnt_to_s == 1, "the expected sender sends the destination rank exactly one activation");
     VASSERTM(tx_omask_to_s == pmask, "the propagation mask travels unchanged");
     VASSERTM(tx_payload_to_s == need, "the activation carries exactly the outputs the destination rank consumes");
-    if (p != root && need != pmask && need_of(p) != pmask) VWITNESS("forwarded by a non-root rank, differing destination sets");
+#if TOPO != 0
+    if (p != root) VWITNESS("forwarded by a non-root rank");
+    if (p != root && need_of(p) != need) VWITNESS("forwarded by a non-root rank whose destination sets differ from the receiver's");
+#endif
     if (p == root && need != pmask) VWITNESS("sent by the root, differing destination sets");
 #else
     /* (b) nobody else */
@@ -192,8 +197,11 @@ int main(void)
     if (s != root && need != 0) VASSUME(q != spec_parent(s));
     run_rank(q);
     VASSERTM(tx_cnt_to_s == 0, "no rank other than the expected sender sends to a destination; nobody sends to the root or to a rank that consumes nothing");
+#if TOPO != 0
     if (q != root && s != root && need != 0 && n_tx > 0) VWITNESS("a forwarding rank that skips the observed destination");
+#endif
     if (q == root && s != root && need == 0) VWITNESS("root, observed rank consumes nothing");
+    if (q != root && s != root && need != 0 && rel_of(q) < rel_of(s)) VWITNESS("an earlier destination rank that is not the sender");
 #endif
     return 0;
 }
